@@ -44,9 +44,9 @@ pub struct Stats {
     pub samples: Vec<String>,
     #[serde(skip)]
     pub nontrivial_flag: bool,
-    /// distinct states measure: (blitter/shader probe tuple per op) hashes are folded in here per run
-    #[serde(skip)]
-    pub state_hashes: Vec<u64>,
+    /// distinct states measure: one signature per executed call = (which blitters / shaders /
+    /// rare branches it reached, call kind, blend mode, clip depth, layer depth)
+    pub state_hashes: std::collections::BTreeSet<u64>,
 }
 
 impl Stats {
@@ -126,7 +126,28 @@ pub fn panic_class(p: &PanicInfo) -> String {
 /// Executes a step on `world` under the budget; updates op statistics.
 pub fn exec(world: &mut World, step: &Step, budget: u64, st: &mut Stats) -> Result<(), PanicInfo> {
     st.ops += 1;
+    // whatever the reference renders since the last call reached goes into the totals only
+    let before = raqote::verif::take_probes();
+    for i in 0..before.len() {
+        st.probes[i] += before[i];
+    }
     let r = mk::guarded(budget, || world.apply(step));
+    // reach: which code this call went through, in which state
+    let p = raqote::verif::take_probes();
+    let mut sig: u64 = 0;
+    for i in 0..p.len() {
+        st.probes[i] += p[i];
+        if p[i] > 0 {
+            sig |= 1 << i;
+        }
+    }
+    if let Some(sh) = world.shadows.get(step.surf) {
+        sig |= (sh.layer_depth().min(7) as u64) << 40;
+        sig |= (sh.clip_depth().min(7) as u64) << 43;
+    }
+    sig |= (step.op.blend().unwrap_or(31) as u64 & 31) << 46;
+    sig |= (step.op.kind_index() as u64 & 31) << 51;
+    st.state_hashes.insert(sig);
     st.max("ticks_max_per_op", raqote::verif::ticks().max(r.as_ref().err().map(|p| p.ticks).unwrap_or(0)));
     r
 }
